@@ -177,6 +177,22 @@ def replay_model(enc: Encoded, model, workdir: Path, patches=()):
             "event": ce.to_json(), "requests": out.get("requests", [])}
 
 
+def block_model(enc, model):
+    "A constraint excluding the model's values of all numeric input applications."
+    diffs = []
+    for key, apps in enc.event.apps.items():
+        for args, t in apps.values():
+            if z3.is_bool(t):
+                continue
+            try:
+                diffs.append(t != model.eval(t, model_completion=True))
+            except z3.Z3Exception:
+                pass
+    for e in enc.event.store.values():
+        diffs.append(e["n"] != model.eval(e["n"], model_completion=True))
+    return Or(*diffs) if diffs else None
+
+
 def syntax_check(pkg, dm, strings, workdir):
     res = compile_and_run(pkg, dm, [], strings, workdir, syntax_only=True)
     return res["ok_compile"], res["compile_log"]
@@ -214,6 +230,8 @@ class Analyzer:
         return r
 
     def _analyse(self, prog, r, patches):
+        if "selfcomp" in self.want:
+            return self._analyse_selfcomp(prog, r, patches)
         try:
             pkg = translate(prog.query, prog.backend)
         except TranslationRaised as e:
@@ -272,6 +290,7 @@ class Analyzer:
                 V.append(Verdict("twin_undefined_reachable", "holds" if tw2 == "sat" else ("inconclusive" if tw2 == "unknown" else "unreachable"), seconds=dt2))
         if "rows" in self.want:
             v = discharge("rows", base + [defined, specified, nofault], Not(enc.rows_equal()), self.timeout_ms)
+            v.query = (base + [defined, specified, nofault], Not(enc.rows_equal()))
             V.append(v)
         if "nofault" in self.want:
             V.append(discharge("nofault_when_defined", base + [defined], enc.cpp_fault(), self.timeout_ms))
@@ -289,6 +308,8 @@ class Analyzer:
                 V.append(discharge(f"init:{name}", base, Or(*conds), self.timeout_ms))
         if "schema" in self.want:
             self._schema(enc, r)
+        if "complete" in self.want:
+            self._complete(enc, r)
         r.solver_seconds = sum(v.seconds for v in V)
         # replay counterexamples
         for v in V:
@@ -298,6 +319,144 @@ class Analyzer:
                 r.inconclusive.append((v.name, v.detail))
             elif v.status == "vacuous":
                 r.inconclusive.append((v.name, "reachability twin not satisfiable: obligations are vacuous"))
+
+    def _analyse_selfcomp(self, prog, r, patches):
+        """C05: execute the per-event code twice on the SAME symbolic event from two independent
+        pre-states (scalar members and uninitialised locals arbitrary, vector members empty = Inv)
+        and require equal rows/faults and Inv restored."""
+        from .model import Event
+        from .equiv import row_eq
+        try:
+            pkg = translate(prog.query, prog.backend)
+        except TranslationRaised as e:
+            r.status, r.detail = "raised", str(e)
+            return
+        r.pkg = pkg
+        dm = prog.datamodel()
+        ev = Event(dm, self.N)
+        try:
+            A = Encoded(prog, pkg, self.N, patches=patches, tag="A", event=ev, skip_ref=True)
+            B = Encoded(prog, pkg, self.N, patches=patches, tag="B", event=ev, skip_ref=True)
+        except (frontend.FrontEndError, cxx.CxxSyntaxError) as e:
+            r.status, r.detail = "illformed", str(e)
+            return
+        except IllTyped as e:
+            r.status, r.detail = "illtyped", str(e)
+            return
+        except Unsupported as e:
+            r.status, r.detail = "unsupported", str(e)
+            r.inconclusive.append(("encoder", str(e)))
+            return
+        r.enc = A
+        r.status = "accepted"
+        base = A.base() + [c for c in B.base()]
+        V = r.verdicts
+        ra, rb = A.exec.rows, B.exec.rows
+        fa, fb = A.exec.faults, B.exec.faults
+        if len(ra) != len(rb) or len(fa) != len(fb):
+            r.inconclusive.append(("selfcomp", "the two executions have different shapes"))
+            return
+        conj = []
+        for (ga, ta, ca), (gb, tb, cb) in zip(ra, rb):
+            conj.append(ga == gb)
+            conj.append(z3.Implies(ga, row_eq(ca, cb)))
+        for (ga, ka, _), (gb, kb, _) in zip(fa, fb):
+            conj.append(ga == gb)
+        tw, _, dt, _ = check_sat(base, Or(*[g for g, _, _ in ra]) if ra else FALSE, self.timeout_ms)
+        V.append(Verdict("twin_row_reachable", "holds" if tw == "sat" else ("inconclusive" if tw == "unknown" else "vacuous"), seconds=dt))
+        r.nontrivial = tw == "sat" and any(k[0] == "for" for k in _walk(A.query_ast))
+        v = discharge("rows_independent_of_prestate", base, Not(z3.And(*conj)) if conj else FALSE, self.timeout_ms)
+        v.selfcomp = (A, B)
+        V.append(v)
+        # Inv restored: every vector member is empty again at the end of a non-faulting event
+        inv = []
+        from .symexec import count as _count
+        for name in A.exec.member_names:
+            cell = A.exec.scopes[0][name]
+            if isinstance(cell.value, CollV):
+                inv.append(_count(cell.value.slots) == 0)
+        if inv:
+            v2 = discharge("invariant_restored", base + [A.exec.alive], Not(z3.And(*inv)), self.timeout_ms)
+            v2.selfcomp = (A, B)
+            V.append(v2)
+        r.solver_seconds = sum(x.seconds for x in V)
+        for v in V:
+            if v.status == "cex":
+                self._confirm_selfcomp(prog, A, v, r)
+            elif v.status in ("inconclusive", "vacuous"):
+                r.inconclusive.append((v.name, v.detail or v.status))
+
+    def _confirm_selfcomp(self, prog, enc, v, r):
+        """Replay: run the real package on [E, E0, E] (E0 = E with every collection empty) and on [E];
+        state carried across events shows as different rows for the same event."""
+        import copy
+        ce = ConcreteEvent.from_model(enc.event, v.model)
+        ce0 = copy.deepcopy(ce)
+        for k in ce0.store:
+            ce0.store[k]["n"] = 0
+        wd = self.scratch("replay")
+        try:
+            res = compile_and_run(enc.pkg, enc.dm, [ce, ce0, ce, ce], dict(enc.event.strings), wd)
+        except ReplayUnsupported as e:
+            r.inconclusive.append((v.name, f"cannot replay: {e}"))
+            v.status = "inconclusive"
+            return
+        if not res["ok_compile"]:
+            r.inconclusive.append((v.name, "replay build failed: " + res["compile_log"][:500]))
+            v.status = "inconclusive"
+            shutil.rmtree(wd, ignore_errors=True)
+            return
+        evs = res["outcome"]["events"]
+        rows = [e["rows"] for e in evs]
+        differs = len(evs) >= 3 and (rows[0] != rows[2] or (len(evs) > 3 and rows[2] != rows[3]) or any(e["fault"] for e in evs[1:]) != bool(evs[0]["fault"]) and False)
+        if differs:
+            d = bundle_dir(self.prop, prog, v.name)
+            text = f"rows for the same event differ with history: first={rows[0]} after other events={rows[2:]}"
+            write_bundle(d, prog, enc.pkg, {"obligation": v.name, "text": text, "event": ce.to_json()})
+            shutil.copy(wd / "driver.cxx", d / "driver.cxx")
+            shutil.copytree(wd / "inc", d / "inc", dirs_exist_ok=True)
+            r.violations.append({"obligation": v.name, "text": text, "replay": str(d), "event": ce.to_json()})
+            v.detail = text
+        else:
+            v.status = "spurious"
+            v.detail = "pre-state of the inductive step not reproduced by a concrete history [E, E0, E, E]"
+            r.spurious.append((v.name, v.detail))
+            r.inconclusive.append((v.name, v.detail + " (the invariant may be too weak for this program)"))
+        shutil.rmtree(wd, ignore_errors=True)
+
+    def _complete(self, enc, r):
+        "C02 front-end facts (decided by the encoder front end, not by the solver)."
+        import re as _re
+        pkg = enc.pkg
+        problems = []
+        for f in pkg.all_filenames:
+            if f not in pkg.files:
+                problems.append(f"file {f} named in the returned info does not exist")
+        if pkg.main_script not in pkg.files:
+            problems.append(f"entry script {pkg.main_script} missing")
+        elif not (pkg.modes.get(pkg.main_script, 0) & 0o111):
+            problems.append(f"entry script {pkg.main_script} is not executable (mode {oct(pkg.modes.get(pkg.main_script, 0))})")
+        for f in pkg.all_filenames:
+            if f in pkg.files and f not in enc.slots:
+                try:
+                    frontend.extract_slots(pkg.backend, f, pkg.files[f])
+                except frontend.FrontEndError as e:
+                    problems.append(str(e))
+        gen_names = [n for n in enc.exec.shadows if _re.search(r"\d+$", n)]
+        if gen_names:
+            problems.append(f"generated identifier(s) declared more than once (shadowing): {sorted(set(gen_names))}")
+        members = [n for _, n in enc.class_decl]
+        if len(set(members)) != len(members):
+            problems.append("class member declared twice")
+        # headers/libraries the used containers need (frozen oracle)
+        for g, ctype, bank, idiom in enc.exec.requests:
+            for spec in enc.dm.colls.values():
+                if spec.container == ctype:
+                    for h in spec.headers:
+                        if h not in enc.includes:
+                            problems.append(f"container {ctype} used but header {h} is not included")
+        v = Verdict("complete", "holds" if not problems else "cex", "; ".join(problems))
+        r.verdicts.append(v)
 
     def _schema(self, enc, r):
         got = schema_of_cpp(enc)
@@ -321,12 +480,19 @@ class Analyzer:
             ok, why = False, f"descriptor tree name {enc.pkg.treename!r} != requested {enc.ref.tree_name!r}"
         if enc.pkg.treename not in enc.exec.trees:
             ok, why = False, f"descriptor tree {enc.pkg.treename!r} is never booked (booked: {list(enc.exec.trees)})"
+        if "descriptor" in self.want:
+            import re as _re
+            runner = enc.pkg.files.get(enc.pkg.main_script, "")
+            fn = enc.pkg.filename
+            delivered = set(_re.findall(r"[/=\"]([\w.-]+\.root)\b", runner))
+            if not fn or fn not in delivered:
+                ok, why = False, f"descriptor file name {fn!r} is not a file the runner script delivers ({sorted(delivered)})"
         v = Verdict("schema", "holds" if ok else "cex", why)
         v.frontend_fact = True
         r.verdicts.append(v)
 
     def _confirm(self, prog, enc, v, r, patches):
-        if v.name == "schema":
+        if v.name in ("schema", "complete"):
             d = bundle_dir(self.prop, prog, v.name)
             write_bundle(d, prog, enc.pkg, {"obligation": v.name, "text": v.detail, "kind": "front-end fact (no event needed)"})
             r.violations.append({"obligation": v.name, "text": v.detail, "replay": str(d)})
@@ -366,9 +532,30 @@ class Analyzer:
             r.violations.append({"obligation": v.name, "text": rp["text"], "replay": str(d), "event": rp["event"]})
             v.detail = rp["text"]
         else:
+            shutil.rmtree(wd, ignore_errors=True)
+            tries = getattr(v, "tries", 0)
+            if tries < 3 and getattr(v, "query", None) is not None:
+                blk = block_model(enc, v.model)
+                if blk is not None:
+                    prem, neg = v.query
+                    prem = prem + [blk]
+                    v2 = discharge(v.name, prem, neg, self.timeout_ms)
+                    v2.tries = tries + 1
+                    v2.query = (prem, neg)
+                    r.spurious.append((v.name, rp["text"]))
+                    if v2.status == "cex":
+                        v.model, v.tries, v.query = v2.model, v2.tries, v2.query
+                        return self._confirm(prog, enc, v, r, patches)
+                    if v2.status == "holds":
+                        v.status = "inconclusive"
+                        v.detail = "only spurious models (blocked): " + rp["text"]
+                        r.inconclusive.append((v.name, v.detail))
+                        return
             v.status = "spurious"
             v.detail = rp["text"]
             r.spurious.append((v.name, rp["text"]))
+            r.inconclusive.append((v.name, "solver model did not reproduce on the real compiled package: " + rp["text"][:200]))
+            return
         shutil.rmtree(wd, ignore_errors=True)
 
 
